@@ -109,12 +109,24 @@ def in_window(s):
     return all(-120 <= p < 120 for evs in sp.values() for (p, _, _, _) in evs)
 
 
+TEMPO_KINDS = ['int', 'int', 'float', 'fraction', 'npint', 'npfloat']
+
+
+def tempo_arg(tempo, kind):
+    """the same constant tempo handed over as another kind of number (seed C03-6 replaced every tempo that is not an
+    `int` / `float` instance by 120)"""
+    from fractions import Fraction
+    import numpy as np
+    return {'int': lambda: tempo, 'float': lambda: float(tempo), 'fraction': lambda: Fraction(tempo),
+            'npint': lambda: np.int64(tempo), 'npfloat': lambda: np.float64(tempo)}[kind or 'int']()
+
+
 def check_events(inp):
     s = load(inp)
     tempo = inp['tempo']
     if not in_window(s):
         return None
-    got = sound.impl_events(s, tempo)
+    got = sound.impl_events(s, tempo_arg(tempo, inp.get('tempo_kind')))
     exp = sound.spec_events(s, tempo)
     if got == exp:
         return None
@@ -149,7 +161,8 @@ def oracle(ctx):
             todo.append({'score': i['score'], 'tempo': i.get('tempo', 120), 'amps': i.get('amps')})
     for _ in range(ctx.n(500, 6000)):
         s = rand_score(ctx, referenced=True)
-        todo.append({'score': str(s), 'tempo': ctx.rng.choice(TEMPI), 'amps': sound.amps_of(s)})
+        todo.append({'score': str(s), 'tempo': ctx.rng.choice(TEMPI), 'amps': sound.amps_of(s),
+                     'tempo_kind': ctx.rng.choice(TEMPO_KINDS)})
     for inp in todo:
         try:
             s = load(inp)
